@@ -20,7 +20,11 @@
                                      when writing the 8-byte trailer fails)
      open_swallows_seek_error       (store.go fileStore.Open: a failing Seek is
                                      ignored and reading starts at offset 0)
-   [code_cfg] is the code as it is; [fixed_cfg] the code with both repaired. *)
+   [code_cfg] is the code as it is (what the correspondence check runs);
+   [fixed_cfg] the code with both repaired, [defective_cfg] with both present.
+   When /repo is repaired, set the two switches to false: every theorem below is
+   stated for an arbitrary cfg, for fixed_cfg or for defective_cfg, so only the
+   tie lemmas of Properties/C15.v (C15_gen_*, C15_code_cfg_is_defective) change. *)
 From Coq Require Import List ZArith Bool Lia.
 Import ListNotations.
 
@@ -40,10 +44,11 @@ Arguments Ok {A} a.
 Arguments Er {A} e.
 
 Record cfg := mkCfg { swallow_trailer : bool; swallow_seek : bool }.
-Definition commit_swallows_trailer_error : bool := true.
-Definition open_swallows_seek_error : bool := true.
+Definition commit_swallows_trailer_error : bool := false.
+Definition open_swallows_seek_error : bool := false.
 Definition code_cfg : cfg := mkCfg commit_swallows_trailer_error open_swallows_seek_error.
 Definition fixed_cfg : cfg := mkCfg false false.
+Definition defective_cfg : cfg := mkCfg true true.
 
 (* ---- the 8-byte little-endian record count ---- *)
 Fixpoint le_enc (n : nat) (c : Z) : list Z :=
@@ -291,55 +296,68 @@ Inductive sop :=
 
 Definition of_res {A} (r : res A) : sres := match r with Ok _ => ROk | Er e => RErr e end.
 
-Definition step (c : cfg) (cl : client) (o : sop) : client * sres :=
-  match o, cstore cl with
-  | OCreate p, SFile w =>
+Definition step_file (c : cfg) (w : fsw) (cur : option writer) (o : sop) : fsw * option writer * sres :=
+  match o with
+  | OCreate p =>
       match fs_create w p with
-      | (w1, Ok wr) => (mkC (SFile w1) (Some wr), ROk)
-      | (w1, Er e) => (mkC (SFile w1) (ccur cl), RErr e)
+      | (w1, Ok wr) => (w1, Some wr, ROk)
+      | (w1, Er e) => (w1, cur, RErr e)
       end
-  | OCreate p, SMem m =>
+  | OWrite d =>
+      match cur with
+      | None => (w, cur, RSkip)
+      | Some wr =>
+          match fs_write w wr d with
+          | (w1, Ok wr') => (w1, Some wr', ROk)
+          | (w1, Er e) => (w1, Some wr, RErr e)
+          end
+      end
+  | OCommit n =>
+      match cur with
+      | None => (w, cur, RSkip)
+      | Some wr => let '(w1, r) := fs_commit c w wr n in (w1, None, of_res r)
+      end
+  | OWDiscard =>
+      match cur with
+      | None => (w, cur, RSkip)
+      | Some _ => (fs_wdiscard w, None, ROk)
+      end
+  | OOpen p off b => let '(w1, r) := fs_open_read c w p off b in (w1, cur, r)
+  | OStat p => let '(w1, r) := fs_stat w p in (w1, cur, r)
+  | ODiscard p => let '(w1, r) := fs_discard w p in (w1, cur, r)
+  end.
+
+Definition step_mem (m : ms) (cur : option writer) (o : sop) : ms * option writer * sres :=
+  match o with
+  | OCreate p =>
       match ms_create m p with
-      | Ok wr => (mkC (SMem m) (Some wr), ROk)
-      | Er e => (cl, RErr e)
+      | Ok wr => (m, Some wr, ROk)
+      | Er e => (m, cur, RErr e)
       end
-  | OWrite d, st =>
-      match ccur cl with
-      | None => (cl, RSkip)
-      | Some wr =>
-          match st with
-          | SFile w =>
-              match fs_write w wr d with
-              | (w1, Ok wr') => (mkC (SFile w1) (Some wr'), ROk)
-              | (w1, Er e) => (mkC (SFile w1) (Some wr), RErr e)
-              end
-          | SMem m => (mkC (SMem m) (Some (mkW (wpart wr) (wdata wr ++ d))), ROk)
-          end
+  | OWrite d =>
+      match cur with
+      | None => (m, cur, RSkip)
+      | Some wr => (m, Some (mkW (wpart wr) (wdata wr ++ d)), ROk)   (* bytes.Buffer.Write *)
       end
-  | OCommit n, st =>
-      match ccur cl with
-      | None => (cl, RSkip)
-      | Some wr =>
-          match st with
-          | SFile w => let '(w1, r) := fs_commit c w wr n in (mkC (SFile w1) None, of_res r)
-          | SMem m => let '(m1, r) := ms_put m (wpart wr) (wdata wr) n in (mkC (SMem m1) None, of_res r)
-          end
+  | OCommit n =>
+      match cur with
+      | None => (m, cur, RSkip)
+      | Some wr => let '(m1, r) := ms_put m (wpart wr) (wdata wr) n in (m1, None, of_res r)
       end
-  | OWDiscard, st =>
-      match ccur cl with
-      | None => (cl, RSkip)
-      | Some wr =>
-          match st with
-          | SFile w => (mkC (SFile (fs_wdiscard w)) None, ROk)
-          | SMem m => (mkC (SMem m) None, ROk)
-          end
+  | OWDiscard =>
+      match cur with
+      | None => (m, cur, RSkip)
+      | Some _ => (m, None, ROk)                                     (* memoryWriter.Discard: no-op *)
       end
-  | OOpen p off b, SFile w => let '(w1, r) := fs_open_read c w p off b in (mkC (SFile w1) (ccur cl), r)
-  | OOpen p off b, SMem m => (cl, ms_open_read m p off b)
-  | OStat p, SFile w => let '(w1, r) := fs_stat w p in (mkC (SFile w1) (ccur cl), r)
-  | OStat p, SMem m => (cl, ms_stat m p)
-  | ODiscard p, SFile w => let '(w1, r) := fs_discard w p in (mkC (SFile w1) (ccur cl), r)
-  | ODiscard p, SMem m => let '(m1, r) := ms_discard m p in (mkC (SMem m1) (ccur cl), r)
+  | OOpen p off b => (m, cur, ms_open_read m p off b)
+  | OStat p => (m, cur, ms_stat m p)
+  | ODiscard p => let '(m1, r) := ms_discard m p in (m1, cur, r)
+  end.
+
+Definition step (c : cfg) (cl : client) (o : sop) : client * sres :=
+  match cstore cl with
+  | SFile w => let '(w1, cur1, r) := step_file c w (ccur cl) o in (mkC (SFile w1) cur1, r)
+  | SMem m => let '(m1, cur1, r) := step_mem m (ccur cl) o in (mkC (SMem m1) cur1, r)
   end.
 
 Fixpoint run (c : cfg) (cl : client) (ops : list sop) : client * list sres :=
